@@ -161,13 +161,17 @@ pub fn assemble_with(pki: &Pki, c: &Value, content: &[u8]) -> (Vec<u8>, String) 
     if g("sig") == "bitflip" { signature[17] ^= 0x40; }
     let mut sid = ski_of(pki, "e0");
     if g("sid") == "bad" { sid[19] ^= 1; }
-    let (t0, t2) = (time_of(0), time_of(2));
-    let (nb, na) = match g("eetime") { "expired" => (time_of(-3), time_of(0)), "notyet" => (time_of(2), time_of(4)), "inverted" => (t2, t0), _ => (t0, t2) };
+    // (TIGHT, only with the instants around the wall clock: windows begin resp. end at instant 1, three seconds before this process
+    // started - "just begun" and "just over" stay what they are as the clock moves on, so nothing here can flake)
+    let tight = TIGHT.load(std::sync::atomic::Ordering::SeqCst);
+    let (t0, t2) = (if tight { time_of(1) } else { time_of(0) }, time_of(2));
+    let t_over = if tight { time_of(1) } else { time_of(0) };
+    let (nb, na) = match g("eetime") { "expired" => (time_of(-3), t_over), "notyet" => (time_of(2), time_of(4)), "inverted" => (t2, t0), _ => (t0, t2) };
     let peer = "k0";
     let other = "k1";
     let ee = id_ee_cert(pki, "e0", if g("eesig") == "peer" { peer } else { other }, peer, nb, na, g("eeca"),
                         match g("eeaki") { "peer" => Some(peer), "other" => Some(other), _ => None }, EE_SERIAL);
-    let (this, next) = match g("crltime") { "stale" => (time_of(-3), time_of(0)), "future" => (time_of(2), time_of(4)), "inverted" => (t2, t0), _ => (t0, t2) };
+    let (this, next) = match g("crltime") { "stale" => (time_of(-3), t_over), "future" => (time_of(2), time_of(4)), "inverted" => (t2, t0), _ => (t0, t2) };
     let revoked: Vec<u64> = match g("revoked") {
         "other" => vec![OTHER_SERIAL], "ee" => vec![EE_SERIAL], "other_ee" => vec![OTHER_SERIAL, EE_SERIAL],
         "ee_other" => vec![EE_SERIAL, OTHER_SERIAL], "big_ee" => vec![BIG_SERIAL, OTHER_SERIAL, EE_SERIAL], _ => vec![],
@@ -177,6 +181,8 @@ pub fn assemble_with(pki: &Pki, c: &Value, content: &[u8]) -> (Vec<u8>, String) 
     let bytes = signed_data(&SignedDataParts { content_type: der::oid(OID_CT_PROTOCOL), content, attrs, certs: vec![ee], crls: vec![crl], sid, signature });
     (bytes, if g("key") == "peer" { peer.into() } else { other.into() })
 }
+
+static TIGHT: std::sync::atomic::AtomicBool = std::sync::atomic::AtomicBool::new(false);
 
 pub fn replay(args: &[String]) {
     let cases = read_cases(&args[0]);
@@ -222,8 +228,9 @@ pub fn replay(args: &[String]) {
         }
         // the protocol-level wrappers (ProvisioningCms / PublicationCms: decode always relaxed, then the enclosed XML) and the entry
         // points that read the clock themselves; for these the instants of the case are placed around the wall clock
-        if wall_usable() {
+        for tight in [false, true] { if wall_usable() {
             EPOCH.store(3, std::sync::atomic::Ordering::SeqCst);
+            TIGHT.store(tight, std::sync::atomic::Ordering::SeqCst);
             let r = guarded(|| -> Vec<(&'static str, bool, String)> {
                 let mut out = Vec::new();
                 let (bytes, key) = assemble_with(&pki, c, &prov_xml);
@@ -253,6 +260,7 @@ pub fn replay(args: &[String]) {
                 out.into_iter().map(|(n, (ok, why))| (n, ok, why)).collect()
             });
             EPOCH.store(0, std::sync::atomic::Ordering::SeqCst);
+            TIGHT.store(false, std::sync::atomic::Ordering::SeqCst);
             match r {
                 Err(m) => s.violation("panic", format!("[protocol wrappers] {m}"), c.clone()),
                 Ok(routes) => for (route, got, why) in routes {
@@ -264,21 +272,35 @@ pub fn replay(args: &[String]) {
             }
             s.count("wallclock_runs", 1);
             s.evals(1);
-        }
+        } }
         s.eval_if(!want, &format!("{c}"));
         if s.samples.len() < 3 && s.evaluations % 211 == 5 { s.sample(c.clone()); }
     }
     // messages created by the library itself: valid for every time within their validity and for no other key
     let r = guarded(|| -> Result<(), (String, String)> {
         // the validity window in 2024, in 1950 (two-digit years) and across the 2049/2050 boundary (UTCTime -> GeneralizedTime)
-        for (i, content) in [&b"x"[..], &vec![0xABu8; 5000][..], &b"y"[..], &b"z"[..]].iter().enumerate() {
+        // the twenty octets the signer's random source hands out for the EE certificate's serial number: whatever it says, one
+        // leading zero octet or five, the octets 0x7f / 0x80 / 0x81 / 0xff right after them (the sign bit of a DER INTEGER)
+        let mut pats: Vec<Option<Vec<u8>>> = vec![None];
+        for zeros in [0usize, 1, 5, 18] {
+            for b in [0x01u8, 0x7f, 0x80, 0x81, 0xff] {
+                let mut v = vec![0u8; zeros];
+                v.push(b);
+                while v.len() < 20 { v.push(0x5a ^ v.len() as u8); }
+                pats.push(Some(v));
+            }
+        }
+        let big = vec![0xABu8; 5000];
+        let contents: [&[u8]; 4] = [&b"x"[..], &big[..], &b"y"[..], &b"z"[..]];
+        for (i, content, pat) in pats.iter().enumerate().map(|(k, p)| (k % 4, contents[k % 4], p)) {
             EPOCH.store([0usize, 0, 1, 2][i], std::sync::atomic::Ordering::SeqCst);
+            pki.signer.script_rand(pat.clone());
             let validity = Validity::new(time_of(0), time_of(2));
             let msg = SignedMessage::create(Bytes::copy_from_slice(content), validity, &pki.key("k0"), &pki.signer).map_err(|e| ("created".to_string(), e.to_string()))?;
             let der_bytes = msg.to_captured().into_bytes();
             for strict in [true, false] {
                 let back = SignedMessage::decode(der_bytes.clone(), strict).map_err(|e| ("created:decode".to_string(), format!("library-created message {i} does not decode (strict={strict}): {e}")))?;
-                if back.content().to_bytes().as_ref() != *content {
+                if back.content().to_bytes().as_ref() != content {
                     return Err(("created:content".into(), "content changed".into()));
                 }
                 let sec = |n: i64| chrono::TimeDelta::try_seconds(n).unwrap();
@@ -303,6 +325,7 @@ pub fn replay(args: &[String]) {
         Ok(())
     });
     EPOCH.store(0, std::sync::atomic::Ordering::SeqCst);
+    pki.signer.script_rand(None);
     match r {
         Ok(Ok(())) => {}
         Ok(Err((k, m))) => s.violation(&k, m, json!({"library_created": true})),
